@@ -1,7 +1,7 @@
 """C19 - no external resource is touched unless permitted; entity resolver protocol and base-URI resolution; entity-expansion limit.
 
 Two C++ drivers (see docs/c19.md):
-  drv/c19_access.cpp  space A: words over 84 reference tokens x full configuration product, unified open/net/resolver log against the
+  drv/c19_access.cpp  space A: words over 102 reference tokens x full configuration product, unified open/net/resolver log against the
                       reference model of the permitted set (+ independent RFC 2396 resolver drv/c19_uri.hpp, + interposed libc entry points)
   drv/c19_expand.cpp  space B: all entity definition graphs (general / parameter / inside a schema document) x SecurityManager limits
 """
@@ -54,7 +54,7 @@ def _cov(rs):
 
 SPEC = dict(
     level="exploration",
-    rule="Space A (fetch permission): documents = every word of length <= k (k=1 and k=2) over 84 reference tokens = 14 reference kinds {external subset SYSTEM / PUBLIC, external "
+    rule="Space A (fetch permission): documents = every word of length <= k (k=1 and k=2) over 102 reference tokens = 17 reference kinds {(since the third seeding round also: xs:import / xs:include / xs:redefine of a schema document that itself has a DOCTYPE with an external subset - a third-level reference read by the schema traverser's helper parser) external subset SYSTEM / PUBLIC, external "
          "general entity declared+used / declared only / used in an attribute value, external parameter entity, xsi:schemaLocation, xsi:noNamespaceSchemaLocation, xs:import / "
          "xs:include / xs:redefine inside a fetched schema, DOCTYPE inside a fetched schema document, external general entity / external parameter entity whose declaration text is the "
          "replacement text of an internal parameter entity (expanded in the document's internal subset, or inside an external subset / external PE living in /v/sub/ while the reference "
